@@ -5,7 +5,7 @@ from fractions import Fraction as F
 import z3
 
 from symx import core, merge, npmodel
-from symx.ev import EV, And, Or, Not, _b, in_unit
+from symx.ev import EV, And, Or, Not, _b, in_unit, R
 from . import nnm
 
 PROPERTY = "C11"
@@ -46,6 +46,12 @@ def cells(tier):
                             if tier == "quick":
                                 fixed["f"] = 0 if N != "inf" else 1
                         out.append(dict(method=list(m), n=n, N=N, ut=ut, ro=ro, fixed=fixed))
+    # rounding: a square root taken of a difference of nearly equal quantities can be NaN in double precision although the
+    # exact value is >= 0 (the model's reals cannot see that; this clause looks for the pattern and confirms on the real code)
+    for m in nnm.METHODS:
+        if m[2] in ("shrink_trunc", "agrapa"):
+            for N in ("inf", 5):
+                out.append(dict(kind="rounding", method=list(m), n=3, N=N, ut="plur", ro=True, fixed={}))
     return out
 
 
@@ -106,8 +112,51 @@ def _explore(cell, mode, stats):
     return findings, samples, state
 
 
+EPS = F(1, 2 ** 50)
+
+
+def _rounding(cell, stats):
+    from symx import ev as _ev
+    ex = core.Explorer(stats=stats)
+    findings, samples = [], []
+    st = {'reach': 0}
+
+    def harness(ex):
+        inst = nnm.build(ex, cell)
+        _ev.SUB_EVENTS.clear()
+        _ev.TRACK_SUB[0] = True
+        try:
+            rule = inst.T.estim if cell["method"][1] == "estim" else inst.T.bet
+            rule(inst.x)
+        except core.PathAbort:
+            raise
+        except Exception:      # noqa  (exceptions are the business of the other cells)
+            return
+        finally:
+            _ev.TRACK_SUB[0] = False
+        st['reach'] += 1
+        for v, mag in list(_ev.SUB_EVENTS):
+            # the difference must clear the rounding error of its operands, or be one the code never takes a root of
+            r, m = ex.prove(z3.Implies(_b(v.fin()), v.v >= R(EPS) * mag), timeout_ms=20000)
+            if r == 'sat':
+                findings.append(dict(clause="no square root of a cancelling difference (NaN by rounding)", cell=cell,
+                                     inputs=nnm.model_inputs(m, inst), advisory=True))
+                if len(findings) >= 3:
+                    break
+            elif r != 'unsat':      # an undecided lint query claims nothing
+                ex.stats.inconclusive -= 1
+                ex.stats.obligations -= 1
+        if not samples:
+            samples.append(dict(cell="rounding " + nnm.method_id(cell["method"]) + f" N={cell['N']}", roots_of_differences_seen=len(_ev.SUB_EVENTS)))
+    ex.run(harness)
+    return findings, samples, st
+
+
 def run_cell(cell):
     stats = core.Stats()
+    if cell.get("kind") == "rounding":
+        findings, samples, st = _rounding(cell, stats)
+        return dict(stats=stats.as_dict(), findings=findings[:3], samples=samples, notes=[], vacuous=(st['reach'] == 0))
     findings, samples, st = _explore(cell, "abstract", stats)
     notes = []
     if st['open'] or findings:
@@ -126,6 +175,22 @@ def replay(f):
     inp = f["inputs"]
     T, _ = nnm.real_instance(cell, inp)
     x = np.array([nnm.fl(v) for v in inp["x"]])
+    if cell.get("kind") == "rounding":
+        # confirm on the real code: the model's sample first, then constant samples of non-dyadic values (where cancellation bites)
+        u = float(T.u)
+        if math.isfinite(T.N):
+            T.N = max(T.N, 50)      # room for the longer constant samples
+        cands = [x] + [np.full(k, c * u) for c in (0.1, 0.3, 0.6, 0.7, 1 / 3, 0.55, 0.9) for k in (len(x), 4, 5, 6, 12) if k <= T.N]
+        for xx in cands:
+            with np.errstate(all="ignore"):
+                try:
+                    p, hist = T.test(xx)
+                except Exception as e:      # noqa
+                    continue
+            hist = np.asarray(hist, dtype=float)
+            if np.any(np.isnan(hist)) or math.isnan(float(p)):
+                return dict(reproduced=True, detail=f"NaN in the history for x={xx.tolist()}: p={float(p)} history={hist.tolist()}")
+        return dict(reproduced=False, detail="no NaN on the real code for the candidate samples")
     try:
         with np.errstate(all="ignore"):
             p, hist = T.test(x)
